@@ -211,6 +211,24 @@ def canon_state(*roots, prefix="joserfc"):
     return (fx, canon_modules(prefix, ids))
 
 
+def _lru_contents(wrapper, ids):
+    """What a functools.lru_cache wrapper holds (keys and cached results), as the garbage collector sees the C object: the wrapper
+    reports, for every entry, its key and its result.  The results are live objects that every hit hands out again, so their
+    CONTENT is state."""
+    import gc
+    import types
+    items = []
+    for r in gc.get_referents(wrapper):
+        if isinstance(r, type):
+            continue
+        if isinstance(r, types.FunctionType):
+            break
+        if isinstance(r, dict) and r and all(type(v).__name__ == "_lru_list_elem" for v in r.values()):
+            break
+        items.append(canon_obj(r, ids=ids))
+    return tuple(items)
+
+
 def _hidden_state(f, ids):
     """State a function carries outside any namespace: mutable default arguments, and the fill level of a memoising wrapper."""
     import types
@@ -222,6 +240,7 @@ def _hidden_state(f, ids):
     if hasattr(f, "cache_info"):
         try:
             out.append(("cache", f.cache_info().currsize))
+            out.append(("cached", _lru_contents(f, ids)))
         except Exception:  # noqa
             pass
         f = getattr(f, "__wrapped__", f)
